@@ -8,6 +8,7 @@ theorem missing_le_length (U acc : List Name) : missing U acc ≤ U.length := by
 theorem missing_mono (U : List Name) {acc acc' : List Name} (h : ∀ x, x ∈ acc → x ∈ acc') :
     missing U acc' ≤ missing U acc := by
   unfold missing
+  simp only [List.contains_eq_mem]
   induction U with
   | nil => simp
   | cons u us ih =>
@@ -26,6 +27,7 @@ theorem missing_lt (U : List Name) {acc acc' : List Name} {f : Name} (hf : f ∈
   | cons u us ih =>
     have hmono := missing_mono us h
     unfold missing at *
+    simp only [List.contains_eq_mem] at *
     simp only [List.filter_cons]
     by_cases huf : u = f
     · subst huf
@@ -60,6 +62,7 @@ variable (sh : Shape) (builtin : Name → Bool) (enterB leave : Name → List Na
   (hU : ∀ f c, c ∈ children f → c ∈ U)
 include hE hL hU
 
+omit hL hU in
 theorem enter_sup (f : Name) (acc : List Name) : ∀ x, x ∈ acc → x ∈ enter sh builtin enterB f acc := by
   intro x hx
   unfold enter
@@ -69,12 +72,12 @@ theorem enter_sup (f : Name) (acc : List Name) : ∀ x, x ∈ acc → x ∈ ente
     · exact hx
     · exact List.mem_cons_of_mem _ hx
 
+omit hL hU in
 theorem enter_mem (f : Name) (acc : List Name) (hn : f ∉ acc) : f ∈ enter sh builtin enterB f acc := by
   unfold enter
   split
   · rename_i hb; exact (hE f acc hb).1
-  · have : acc.contains f = false := by simp [hn]
-    simp [this]
+  · simp [hn]
 
 /-- one level of the walk, given that the walk with fuel `n` ends for every feature that is not yet in a list with at
     most `n` names missing -/
@@ -97,7 +100,7 @@ theorem walk_succ (hg : sh.recGuarded = true) (n : Nat)
   obtain ⟨r, hr, hp⟩ := hfold
   refine ⟨leave f r, by rw [walk, hr], ?_⟩
   intro x hx
-  exact hL f r x (hp x (enter_sup sh builtin enterB leave children U hE hL hU f acc x hx))
+  exact hL f r x (hp x (enter_sup sh builtin enterB hE f acc x hx))
 
 /-- the guarded walk ends for every feature that is not yet in the list, with fuel = number of names still missing -/
 theorem walk_new (hg : sh.recGuarded = true) (n : Nat) : ∀ c a, c ∈ U → c ∉ a → missing U a ≤ n →
@@ -110,8 +113,8 @@ theorem walk_new (hg : sh.recGuarded = true) (n : Nat) : ∀ c a, c ∈ U → c 
   | succ n ih =>
     intro c a hc hn hm
     apply walk_succ sh builtin enterB leave children U hE hL hU hg n ih c a
-    have := missing_lt U hc hn (enter_mem sh builtin enterB leave children U hE hL hU c a hn)
-      (enter_sup sh builtin enterB leave children U hE hL hU c a)
+    have := missing_lt U hc hn (enter_mem sh builtin enterB hE c a hn)
+      (enter_sup sh builtin enterB hE c a)
     omega
 
 /-- **the guarded walk terminates**: from any feature (new, repeated, unknown) and any list, on any feature graph
